@@ -155,11 +155,12 @@ Inductive dres :=
 
 Definition sub (b : bytes) (s e : nat) : bytes := firstn (e - s) (skipn s b).
 
-(* func (self *StreamDecoder) consume(): drops the bytes before scanp (and the white space after them) *)
+(* func (self *StreamDecoder) consume(): drops the bytes before scanp (and the white space after them);
+   when only white space is left the whole buffer counts as consumed (self.scanp = len(self.buf)) and is recycled *)
 Definition consume (st : sd) : sd :=
   let (c, st1) := scan st in
   let st2 := match c with
-             | None => set_buf st1 [] 0
+             | None => set_buf (set_scanp st1 (length (buf st1))) [] 0
              | Some _ => set_buf st1 (skipn (scanp st1) (buf st1)) (cap st1)
              end in
   set_scanp (set_scanned st2 (scanned st2 + scanp st2)) 0.
